@@ -116,6 +116,7 @@ class Ctx:
         """Run request lines through the property's Lean driver; None if the driver is unavailable."""
         if not self.driver_ok:
             return None
+        own = driver is None or driver == self.mod.DRIVER
         driver = driver or self.mod.DRIVER
         data = "\n".join(lines) + "\n"
         rc, out, err = sh(["lake", "env", "lean", "--run", driver], cwd=LEAN, input=data, timeout=3600)
@@ -123,9 +124,10 @@ class Ctx:
         if res and res[-1] == "":
             res.pop()
         if rc != 0 or len(res) != len(lines):
-            self.broken.append({"stream": "driver", "lean_message": (err or out)[-2000:],
+            self.broken.append({"stream": "driver" if own else f"driver {driver}", "lean_message": (err or out)[-2000:],
                                 "detail": f"driver rc={rc}, {len(res)} responses for {len(lines)} requests"})
-            self.driver_ok = False
+            if own:      # a shared side driver (e.g. drivers/Args.lean) that no longer builds does not silence the property's own model
+                self.driver_ok = False
             return None
         return res
 
